@@ -783,12 +783,14 @@ func c04Main(args []string) error {
 			h, _ := c04NewHeap(fam, init)
 			line := c04Line{D: 0, Heap: h.project()}
 			rc.emit(nil, line)
+			path := []c04Line{line} // a new file restarts with the program's lines so far
 			for d := 1; d <= ln; d++ {
 				cs := c04Calls(fam, line.Heap, rng)
 				c := cs[rng.Intn(len(cs))]
 				res := h.exec(&c)
 				line = c04Line{D: d, C: &c, Res: &res, Heap: h.project()}
-				rc.emit(nil, line)
+				rc.emit(path, line)
+				path = append(path, line)
 				if res.K == "panic" {
 					break
 				}
